@@ -241,6 +241,8 @@ def make_program(rng, arch, nfuncs=8):
                 f = a64_frameless_func("f%d" % i, rng, frame=rng.choice([0x3fff0, 0x40000, 0x40010, 0x50000, 0xffff0, 0x100000]), top_slot=True)
                 f.shape = "bigframe"
         funcs.append(f)
+    for f in funcs:
+        f.arch = arch
     # lay out: adjacent, sometimes with gaps; function after a noreturn one starts right at its end
     pos = 0x1000
     for f in funcs:
@@ -248,9 +250,16 @@ def make_program(rng, arch, nfuncs=8):
         pos += f.length + (0 if f.bounds[-1].kind == "tailcall" else rng.choice([0, 0, 4, 16]))
     return funcs
 
+EXTRA_REGS = {"x86": [3, 12, 13, 14, 15] + list(range(17, 25)),          # rbx, r12-r15, xmm0-7
+              "a64": list(range(19, 29)) + list(range(72, 80))}           # x19-x28, d8-d15
 def program_fdes(funcs, base_svma):
+    """FDEs as a compiler emits them: besides the CFA, the frame pointer and the return address, every function
+    also describes the other callee-saved registers it spills (framehop does not use those rules, the CFI
+    interpreter has to carry them)"""
     return [dict(start=base_svma + f.start, len=f.length, rows=f.rows(), vendor_at=f.vendor_at,
-                 remember_at=tuple(f.remember_at), restore_at=tuple(f.restore_at)) for f in funcs]
+                 remember_at=tuple(f.remember_at), restore_at=tuple(f.restore_at),
+                 extra_regs=tuple(EXTRA_REGS.get(getattr(f, "arch", None), ())[: (len(f.name) * 7 + f.length) % 19]))
+            for f in funcs]
 
 PAC = 0x5a << 56
 
